@@ -193,19 +193,20 @@ Lemma fixed_consumes_piece complete st sub : forall lits lid lit to,
     In (lid, lit) lits ->
     assocN lid st = Some to ->
     String.prefix lit sub = true ->
-    (String.length lit < String.length sub)%nat ->
     lit_pure_fixed complete lits st sub = SCont to (String.length lit).
 Proof.
-  induction lits as [|[i l] r IH]; intros lid lit to Hu Hin Ha Hp Hl; [contradiction|].
+  induction lits as [|[i l] r IH]; intros lid lit to Hu Hin Ha Hp; [contradiction|].
   cbn [lit_pure_fixed].
   destruct (assocN i st) as [t|] eqn:Ea.
   - destruct (Hu i l t (or_introl eq_refl) Ea) as [-> ->].
     rewrite Ha in Ea. injection Ea as <-.
-    destruct (String.eqb lit sub) eqn:E.
-    + apply String.eqb_eq in E. subst sub. lia.
-    + destruct (complete && String.prefix sub lit) eqn:E2.
-      * apply andb_true_iff in E2 as [_ E2]. pose proof (prefix_length _ _ E2). lia.
-      * rewrite Hp. reflexivity.
+    destruct (String.eqb lit sub) eqn:E; [reflexivity|].
+    destruct (complete && String.prefix sub lit) eqn:E2.
+    + apply andb_true_iff in E2 as [_ E2].
+      pose proof (prefix_length _ _ E2). pose proof (prefix_length _ _ Hp).
+      assert (lit = sub) by (apply prefix_same_length; [exact Hp|lia]).
+      apply eqb_false_neq in E. contradiction.
+    + rewrite Hp. reflexivity.
   - destruct Hin as [Hin|Hin].
     + injection Hin as -> ->. congruence.
     + apply (IH lid lit to); try assumption.
